@@ -4,7 +4,7 @@
 //! This crate provide `build.rs` utilities for the `leptos_i18n` crate.
 
 use std::collections::HashSet;
-use std::fmt::{Display, Write};
+use std::fmt::Display;
 use std::fs::{create_dir_all, File};
 use std::io::BufWriter;
 use std::path::PathBuf;
@@ -344,16 +344,52 @@ impl<'a> LocaleTranslations<'a> {
     }
 }
 
+/// Lowercase hexadecimal digit of a value below 16.
+fn hex_digit(n: u8) -> char {
+    match n {
+        0..=9 => (b'0' + n) as char,
+        _ => (b'a' + (n - 10)) as char,
+    }
+}
+
+/// Append `s` to `buf` as a JSON string literal (RFC 8259, section 7).
+fn push_json_string(buf: &mut String, s: &str) {
+    buf.push('"');
+    for c in s.chars() {
+        match c {
+            '"' => buf.push_str("\\\""),
+            '\\' => buf.push_str("\\\\"),
+            c if (c as u32) < 0x20 => {
+                buf.push_str("\\u00");
+                buf.push(hex_digit((c as u32 / 16) as u8));
+                buf.push(hex_digit((c as u32 % 16) as u8));
+            }
+            c => buf.push(c),
+        }
+    }
+    buf.push('"');
+}
+
+impl TranslationsFormatter<'_> {
+    /// The strings as the text of a JSON array.
+    fn to_json(&self) -> String {
+        let mut buf = String::new();
+        buf.push('[');
+        let mut first = true;
+        for s in self.strings {
+            if !first {
+                buf.push(',');
+            }
+            first = false;
+            push_json_string(&mut buf, s);
+        }
+        buf.push(']');
+        buf
+    }
+}
+
 impl Display for TranslationsFormatter<'_> {
     fn fmt(&self, f: &mut std::fmt::Formatter<'_>) -> std::fmt::Result {
-        f.write_char('[')?;
-        let mut iter = self.strings.iter();
-        if let Some(first) = iter.next() {
-            write!(f, "{:?}", first)?;
-        }
-        for s in iter {
-            write!(f, ",{:?}", s)?;
-        }
-        f.write_char(']')
+        f.write_str(&self.to_json())
     }
 }
